@@ -142,6 +142,35 @@ def run_classical(ctx, states, rng, limit):
             ctx.violation('C12:exception:classical', type(ex).__name__ + ': ' + str(ex)[:160], data)
 
 
+def run_purefid(ctx, states):
+    """get_fidelity on Gaussian-integer kets and rational mixtures: every argument form, both orders, both backends"""
+    import numqi, torch
+    F = numqi.utils.get_fidelity
+    for st in states:
+        obs = st['obs']
+        cv = lambda v: np.array([complex(z[0], z[1]) for z in v])
+        psi, v1, v2 = cv(obs['psi']), cv(obs['v1']), cv(obs['v2'])
+        psi, v1, v2 = psi / np.linalg.norm(psi), v1 / np.linalg.norm(v1), v2 / np.linalg.norm(v2)
+        w1, w2 = obs['w1'], obs['w2']
+        rho = (w1 * np.outer(v1, v1.conj()) + w2 * np.outer(v2, v2.conj())) / (w1 + w2)
+        fkk = obs['fkk'][0] / obs['fkk'][1]
+        frk = obs['frk'][0] / obs['frk'][1]
+        data = dict(psi=obs['psi'], v1=obs['v1'], v2=obs['v2'], w=[w1, w2])
+        ctx.case(('purefid', st['cfg']['d'], st['cfg']['s']))
+        try:
+            forms = [('ket,ket', F(psi, v1), fkk), ('ket,ket swapped', F(v1, psi), fkk), ('dm,ket', F(rho, psi), frk), ('ket,dm', F(psi, rho), frk),
+                     ('dm,projector', F(rho, np.outer(psi, psi.conj())), frk), ('projector,dm', F(np.outer(psi, psi.conj()), rho), frk),
+                     ('torch dm,ket', float(F(torch.tensor(rho), torch.tensor(psi))), frk), ('torch ket,dm', float(F(torch.tensor(psi), torch.tensor(rho))), frk),
+                     ('torch ket,ket', float(F(torch.tensor(psi), torch.tensor(v1))), fkk)]
+            for name, got, want in forms:
+                ctx.evaluations += 1
+                # dm/dm forms take a matrix square root of a rank-deficient projector: errors of order sqrt(machine eps)
+                if not np.isfinite(got) or abs(float(got) - want) > (1e-6 if 'projector' in name else 1e-8):
+                    ctx.violation('C12:get_fidelity:%s' % name, 'get_fidelity(%s) differs from the exact value %.12g (got %.12g): fidelity is not symmetric / representation independent' % (name, want, float(got)), data)
+        except Exception as ex:
+            ctx.violation('C12:exception:get_fidelity', type(ex).__name__ + ': ' + str(ex)[:160], data)
+
+
 def run(ctx):
     quick = ctx.tier == 'quick'
     rng = random.Random(ctx.seed)
@@ -156,6 +185,11 @@ def run(ctx):
     run_channels(ctx, sts, rng)
     ctx.traces += len(sts)
     run_noise(ctx)
+    r = tlc.run('tensor/MC_PureFid.tla', 'tensor/MC_PureFid_%s.cfg' % ('q' if quick else 't'), dump=True, timeout=3000)
+    ctx.add_model('MC_PureFid', r)
+    sts = list(tlc.parse_dump(r))
+    run_purefid(ctx, sts)
+    ctx.traces += len(sts)
     r = tlc.run('tensor/MC_Classical.tla', 'tensor/MC_Classical_%s.cfg' % ('q' if quick else 't'), dump=True, timeout=3000)
     ctx.add_model('MC_Classical', r)
     sts = list(tlc.parse_dump(r))
